@@ -235,6 +235,24 @@ def edit_space_reeval(db, ctx):
     C01.edit_space(db, ctx)
 
 
+@rule("C07.yomigana-class", "a character belongs to a class of the yomigana pattern (kanji / kana) when its category set INTERSECTS the requested "
+                            "classes: characters that carry a further category (kanji numerals, the iteration mark, ..) are still kanji — a subset "
+                            "test in either direction drops them from the pattern")
+def yomigana_class(db, ctx):
+    f = db.view(db.one("append_class", "IgnoreYomiganaPlugin"))
+    tests = []
+    for n, _ in walk(f.hir):
+        if n.get("k") == "MethodCall" and n.get("method") in ("intersects", "contains", "is_subset", "is_superset", "eq") and "CategoryType" in (n.get("rty") or ""):
+            tests.append(n["method"])
+        c = cmp_atom(n) if n.get("k") == "Binary" else None
+        if c and c[0] in ("Eq", "Ne") and any("CategoryType" in (peel_casts(x).get("ty") or "") for x in (c[1], c[2])):
+            tests.append("==")
+        if n.get("k") == "MethodCall" and n.get("method") == "is_empty" and peel(n["recv"]).get("k") == "Binary" and peel(n["recv"]).get("op") == "BitAnd":
+            tests.append("intersects")          # !(c & t).is_empty()
+    ctx.ob("append_class|membership", bool(tests) and set(tests) == {"intersects"},
+           "IgnoreYomiganaPlugin::append_class selects ranges by %s (must be an intersection test)" % (sorted(set(tests)) or "no category test"), fn=f)
+
+
 @rule("C07.path-choice", "replace_fast is reachable only when neither whole-text predicate holds, and the whole-text predicates use the "
                          "same library predicates as the per-character decisions of replace_slow")
 def path_choice(db, ctx):
